@@ -222,6 +222,10 @@ WITNESS = {
 def reproduces(h, wid):
     prog, args = WITNESS[wid]
     d = fields(rust_emit(h, [("w", prog, args)])[0])
+    if wid == "F15":
+        # the emission itself: the reloaded function still differs while the plain printer used by
+        # the reload path drops the parentheses again (F12-F14)
+        return "(-5)" not in c.unhex(d.get("SRC", "")), d
     return any(len(r) == 3 and not (r[0] == r[1] == r[2]) for r in d["R"]), d
 
 
